@@ -1,21 +1,92 @@
 """Run the compiled Lean model driver over a batch of operation lines."""
-import os, subprocess, tempfile
+import os, selectors, subprocess, threading, time
 
 VERIF = os.path.dirname(os.path.dirname(os.path.dirname(os.path.abspath(__file__))))
 DRIVER = os.path.join(VERIF, "lean", ".lake", "build", "bin", "driver")
 
+# The model is executable but not fast on pathological inputs (its attribute environment is a plain list: a frame that
+# declares 65 535 group members takes minutes). An operation the model does not answer within PER_LINE seconds is
+# answered "model-timeout": the correspondence skips it (counted as `model_timeouts`), the implementation-side
+# oracles still see it. After MAX_SLOW such operations in one batch the rest of the batch is skipped the same way.
+PER_LINE = float(os.environ.get("VERIF_MODEL_PER_LINE", "30"))
+MAX_SLOW = 8
+TIMEOUT_ANSWER = "model-timeout"
+model_timeouts = 0
 
-def run_model(lines, timeout=1800):
+
+def _run_once(lines, per_line):
+    """returns (answers so far, finished?)"""
+    data = ("\n".join(lines) + "\n").encode()
+    p = subprocess.Popen([DRIVER], stdin=subprocess.PIPE, stdout=subprocess.PIPE, stderr=subprocess.PIPE)
+
+    def feed():
+        try:
+            p.stdin.write(data)
+            p.stdin.close()
+        except (BrokenPipeError, OSError):
+            pass
+    th = threading.Thread(target=feed, daemon=True)
+    th.start()
+    sel = selectors.DefaultSelector()
+    sel.register(p.stdout, selectors.EVENT_READ)
+    buf = bytearray()
+    nl = 0
+    last = time.time()
+    finished = False
+    fd = p.stdout.fileno()
+    while True:
+        ev = sel.select(timeout=1.0)
+        if ev:
+            chunk = os.read(fd, 1 << 20)
+            if not chunk:
+                finished = True
+                break
+            buf += chunk
+            k = chunk.count(b"\n")
+            if k:
+                nl += k
+                last = time.time()
+        elif time.time() - last > per_line:
+            break
+    sel.close()
+    if not finished:
+        p.kill()
+    p.wait()
+    err = p.stderr.read()
+    p.stdout.close(); p.stderr.close()
+    th.join(timeout=5)
+    out = bytes(buf).decode().split("\n")
+    out = out[:nl]                         # complete lines only
+    if finished and p.returncode != 0:
+        raise RuntimeError(f"driver exited {p.returncode}: {err.decode()[-500:]}")
+    return out, finished
+
+
+def run_model(lines, timeout=None):
     """lines: list[str] -> list[str] (one answer per line)"""
+    global model_timeouts
     if not lines:
         return []
-    data = ("\n".join(lines) + "\n").encode()
-    p = subprocess.run([DRIVER], input=data, stdout=subprocess.PIPE, stderr=subprocess.PIPE, timeout=timeout)
-    if p.returncode != 0:
-        raise RuntimeError(f"driver exited {p.returncode}: {p.stderr.decode()[-500:]}")
-    out = p.stdout.decode().split("\n")
-    if out and out[-1] == "":
-        out.pop()
-    if len(out) != len(lines):
-        raise RuntimeError(f"driver returned {len(out)} answers for {len(lines)} operations")
-    return out
+    answers = []
+    rest = list(lines)
+    slow = 0
+    while rest:
+        if slow >= MAX_SLOW:
+            answers += [TIMEOUT_ANSWER] * len(rest)
+            model_timeouts += len(rest)
+            break
+        out, finished = _run_once(rest, PER_LINE)
+        answers += out
+        if finished:
+            rest = rest[len(out):]
+            if rest:
+                raise RuntimeError(f"driver returned {len(answers)} answers for {len(lines)} operations")
+            break
+        # the operation after the last answered one is the slow one
+        answers.append(TIMEOUT_ANSWER)
+        model_timeouts += 1
+        slow += 1
+        rest = rest[len(out) + 1:]
+    if len(answers) != len(lines):
+        raise RuntimeError(f"driver returned {len(answers)} answers for {len(lines)} operations")
+    return answers
